@@ -46,7 +46,7 @@ Definition C13_gen (Gconsistent : mtype -> list (list N * pval) -> Prop)
      whatever was sent or received under other ids in between *)
   (forall obj structure reg st m i st1 has_id m' ty evs data,
      valid_id i = true -> send_request reg st m i = (st1, Sent has_id m' ty) ->
-     forallb (other_id obj structure reg i) evs = true ->
+     forallb (other_id i) evs = true ->
      amem k_jsonrpc data = true -> aget k_id data = Some i ->
      amem k_error data = false -> aget k_method data = None ->
      snd (structure_message obj structure reg (fold_left (ev_step obj structure reg) evs st1) data) =
@@ -59,6 +59,21 @@ Definition C13_gen (Gconsistent : mtype -> list (list N * pval) -> Prop)
   (forall payload, wf_json payload = true -> Ggeneric payload ->
      exists o, dict_to_object (embed payload) = SOk o /\
                forall p leaf, In (p, leaf) (spec_leaves payload) -> pget o p = Some (embed leaf)) /\
+  (* ... and that object is what the handler of an unknown method is given for the wire params *)
+  (forall obj structure reg st kvs data m pv o,
+     Gnested (JObj kvs) ->
+     embed (JObj kvs) = PDict data ->
+     aget k_jsonrpc data = Some (PStr s_version) -> amem k_error data = false ->
+     aget k_method data = Some (PStr m) -> find_method reg m = None ->
+     aget k_params data = Some pv -> dict_to_object pv = SOk o ->
+     forallb (fun k => mem_str k [k_id; k_method; k_jsonrpc; k_params]) (akeys data) = true ->
+     receive obj structure reg st (JObj kvs) =
+       (st, match aget k_id data with
+            | Some i => ORequest i (MGeneric GRequest
+                          [(k_id, i); (k_method, PStr m); (k_jsonrpc, PStr s_version); (k_params, o)])
+            | None => ONotification (MGeneric GNotification
+                          [(k_method, PStr m); (k_jsonrpc, PStr s_version); (k_params, o)])
+            end)) /\
   (* (iv) finite, about the regenerated tables: every helper stands for a registry method of its
      side with the right entry point and the prescribed name; every method has its helpers;
      the _async variant of a helper names the same method *)
@@ -89,6 +104,7 @@ Proof.
   - intros. eapply handler_gets_structure; eassumption.
   - intros. eapply reply_structured_as_requested; eassumption.
   - intros. apply generic_leaves_reachable; assumption.
+  - intros. eapply generic_handler_gets_object; eassumption.
   - exact A.
   - exact B.
   - exact C.
